@@ -212,7 +212,10 @@ func famC20(c *hx.Ctx) []*scenario {
 	//     processor waits for a token in every round, never for long: every request is answered and the connection stays up
 	for _, kind := range []string{"sub", "unsub", "sub-unsub", "pub1", "all"} {
 		for n := 1; n <= 3; n++ {
-			const tt = 600 * time.Millisecond
+			if n == 2 && kind != "all" {
+				continue
+			}
+			const tt = time.Second // the processor's wait for a token lasts some 100 ms by design: the rest is margin
 			st := []step{in(connectPkt(true, nil)), {kind: "settle"}}
 			id := 0
 			for round := 0; round < 2; round++ {
